@@ -69,17 +69,15 @@ def run_family(ctx, want_names=False, want_quick=True, only_ops=None, seeds=None
 def histories(ctx, n, name="hist"):
     """Model histories (tlc -simulate on SimStore) replayed against ONE real directory each, no re-materialisation
     between the steps: salts, time stamps and aux bytes are carried by the real files."""
-    ntr = max(10, n // 20)
-    res = ctx.run_tlc("MC_SimStore.tla", "MC_SimStore.cfg", workers=1, simulate=ntr, depth=32, timeout=600, name="simstore")
-    hs, seen = [], set()
+    # TLC's simulator evaluates the printing invariant on every successor of the last state, so each simulated
+    # trace arrives as a bundle of histories that differ only in their last step: keep two per trace
+    res = ctx.run_tlc("MC_SimStore.tla", "MC_SimStore.cfg", workers=1, simulate=n, depth=32, timeout=900, name="simstore")
+    hs, seen = [], {}
     for h in res["hists"]:
         key = json.dumps(h[:-1], sort_keys=True)
-        if key in seen and len(hs) >= ntr and (len(hs) >= n):
-            continue
-        seen.add(key)
-        hs.append(h)
-        if len(hs) >= n:
-            break
+        seen[key] = seen.get(key, 0) + 1
+        if seen[key] <= 2:
+            hs.append(h)
     if not hs:
         ctx.inconclusive.append("SimStore produced no histories (%s)" % res["status"])
         return
